@@ -398,6 +398,10 @@ def make_config(seed, tier="quick", half="c17"):
     else:
         qty = r.choice([1, 10, 0.1, 0.3, 2.5, 7.9, 12.3, round(r.randint(1, 5000) / 10.0, 1)])
     price = r.choice([200.0, 1, 0.01, 99.5, 1234.5678, round(r.uniform(0.0001, 5000.0), r.randint(0, 6)) or 0.5])
+    # separate stream: prices whose repr() uses an exponent (sub-1e-4 and huge magnitudes)
+    rt = random.Random(seed ^ 0xC17E5)
+    if rt.random() < 0.08:
+        price = rt.choice([1.234e-05, 2.5e-07, 5e-05, 9.87654321e-06, 1e-10])  # (huge magnitudes would absorb the harness's own price + 1.0 replace step)
     weights = {}
     for k in ACTION_KINDS:
         mult = r.choice([0.0, 0.3, 1.0, 1.0, 1.0, 3.0])
